@@ -848,6 +848,27 @@ func (e *Env) evalCall(n *ECall) SVal {
 		v := e.coerce(arg(1), goT(u.Elem()))
 		mv, mp, mvS, mpS, ks, vs := x.mapHeaps(u)
 		return SVal{T: x.cnt(sel(x.heapGet(e.cur, mv, mvS), m.T), sel(x.heapGet(e.cur, mp, mpS), m.T), v.T, ks, vs), Ty: stInt}
+	case "visitedIn":
+		// visitedIn(N, k): key k was already produced by the map-range loop number N
+		nl, ok := n.Args[0].(*EInt)
+		if !ok {
+			sfail("visitedIn(N, k) needs a literal loop number")
+		}
+		for _, li := range x.loops {
+			if fmt.Sprint(li.num) == nl.V && li.iter != nil {
+				vs, ok := e.cur.iters[li.iter]
+				if !ok {
+					sfail("visitedIn(%s): iterator not started", nl.V)
+				}
+				ks, _ := vs.Sort.arrayParts()
+				k := arg(1)
+				if k.Lit != nil {
+					k = SVal{T: bvLit(ks.bvWidth(), k.Lit)}
+				}
+				return boolV(sel(vs, k.T))
+			}
+		}
+		sfail("visitedIn(%s): no such map-range loop", nl.V)
 	case "visited":
 		if e.loop == nil || e.loop.iter == nil {
 			sfail("visited() outside a map-range loop annotation")
